@@ -49,6 +49,10 @@ impl Interval {
         }
     }
 
+    pub const fn from_md_ms(months: i32, days: i32, ms: i32) -> Self {
+        Interval { months, days, ms }
+    }
+
     pub const fn from_secs(seconds: i32) -> Self {
         Interval {
             months: 0,
@@ -79,6 +83,11 @@ impl Interval {
 
     pub const fn seconds(&self) -> i32 {
         self.ms / 1000 % 60
+    }
+
+    /// The sub-day part in milliseconds.
+    pub const fn num_milliseconds(&self) -> i32 {
+        self.ms
     }
 
     pub const fn num_months(&self) -> i32 {
